@@ -36,6 +36,8 @@ func init() {
 		},
 		Run: runC16,
 		Controls: []core.Control{
+			{Name: "rewind-skipped-for-full-window", File: "internal/sys/fs.go", Old: "\t\tif _, errno = d.f.Seek(0, io.SeekStart); errno != 0 {\n\t\t\treturn\n\t\t}\n\t\td.dirents = nil // dump cache\n", New: "\t\tif d.countRead == uint64(len(d.dirents)) {\n\t\t\tbreak\n\t\t}\n\t\tif _, errno = d.f.Seek(0, io.SeekStart); errno != 0 {\n\t\t\treturn\n\t\t}\n\t\td.dirents = nil // dump cache\n", Rule: "R16.10", Substr: "position 0"},
+			{Name: "renumber-fails-after-delete", File: "internal/sys/fs.go", Old: "\tc.openedFiles.Delete(from)\n", New: "\tc.openedFiles.Delete(from)\n\tif to > 1<<20 {\n\t\treturn sys.EBADF\n\t}\n", Rule: "R16.9", Substr: ""},
 			{Name: "conn-close-only-shuts-down", File: "internal/sysfs/sock.go", Old: "\treturn experimentalsys.UnwrapOSError(f.tc.Close())\n", New: "\treturn f.Shutdown(socketapi.SHUT_RDWR)\n", Rule: "R16.8", Substr: "tcpConnFile"},
 			{Name: "eof-from-short-read", File: "internal/sys/fs.go", Old: "\t\t\t// A short count is not the end: Readdir skips entries which vanished while it read.\n\t\t\td.dirents = append(d.dirents, dirents...)", New: "\t\t\td.eof = countRead < countToRead\n\t\t\td.dirents = append(d.dirents, dirents...)", Rule: "R16.7", Substr: "end of directory"},
 			{Name: "dirent-count-clamped", File: "internal/sys/fs.go", Old: "\tif n == 0 {\n\t\treturn // special case no entries.\n\t}\n", New: "\tif n == 0 {\n\t\treturn // special case no entries.\n\t} else if n > 256 {\n\t\tn = 256\n\t}\n", Rule: "R16.6", Substr: "requested count"},
